@@ -30,8 +30,8 @@ namespace verif {
 const char* const HARNESS = "c04h";
 constexpr int MAXROUNDS   = 3;
 constexpr int MAXT        = 6;
-enum { F_DET = 0, F_ROUNDS, F_N0, F_N1, F_N2, F_INIT, F_FANOUT, F_DEPTH, F_ROUTE, F_WSEED, F_COUNT };
-const std::vector<const char*> FIELDS = {"detector", "rounds", "n0", "n1", "n2", "init", "fanout", "depth", "route", "wseed"};
+enum { F_DET = 0, F_ROUNDS, F_N0, F_N1, F_N2, F_INIT, F_FANOUT, F_DEPTH, F_ROUTE, F_WSEED, F_BREAK, F_COUNT };
+const std::vector<const char*> FIELDS = {"detector", "rounds", "n0", "n1", "n2", "init", "fanout", "depth", "route", "wseed", "break"};
 // tail: the history, one value per entry: thread + 8 * (repeat - 1); split evenly over the rounds
 static const char* DETS[] = {"ring", "tree"};
 
@@ -49,6 +49,9 @@ Case generate() {
   c[F_DEPTH]  = c[F_FANOUT] == 1 ? *uni(0, 12) : *uni(0, 4);
   c[F_ROUTE]  = *gen::weightedElement<int>({{1, 0}, {2, 1}, {1, 2}}); // 0 anywhere, 1 to the next thread, 2 towards the master and its successor
   c[F_WSEED]  = *uni(0, 1 << 24);
+  // bit r: round r is abandoned after its generated steps (a loop left through parallel_break: the threads
+  // simply stop calling the detector); the next round re-arms the same detector object
+  c[F_BREAK]  = c[F_ROUNDS] >= 2 && *uni(0, 3) == 0 ? *uni(1, 4) : 0;
   int len     = *uni(0, 60) * (int)c[F_ROUNDS];
   for (int i = 0; i < len; ++i)
     c.f.push_back(*uni(0, 8) + 8 * *gen::weightedElement<int>({{4, 0}, {3, 1}, {2, 2}, {1, 4}, {1, 7}}));
@@ -98,6 +101,7 @@ void run(const Case& c) {
   long total_window = 0, total_units = 0;
   bool shrunk_threads = false;
   unsigned prev_n = 0;
+  int abandoned_rounds = 0;
   for (int r = 0; r < rounds && failure_key.empty(); ++r) {
     unsigned n = galois::setActiveThreads((unsigned)std::max<int64_t>(1, std::min<int64_t>(MAXT, c[F_N0 + r])));
     galois::substrate::TerminationDetection* term;
@@ -130,7 +134,9 @@ void run(const Case& c) {
     }
     size_t generated     = script.size();
     const int FAIR_SWEEPS = 12 * (int)n + 40; // every thread takes 3 steps per sweep: at least one complete idle report
-    for (int s = 0; s < FAIR_SWEEPS; ++s)
+    bool abandoned        = ((c[F_BREAK] >> r) & 1) && r + 1 < rounds;
+    abandoned_rounds += abandoned;
+    for (int s = 0; s < FAIR_SWEEPS && !abandoned; ++s)
       for (unsigned t = 0; t < n; ++t)
         for (int k = 0; k < 3; ++k)
           script.push_back((int)t);
@@ -206,7 +212,7 @@ void run(const Case& c) {
       bool all_left = true;
       for (unsigned i = 0; i < n; ++i)
         all_left &= left[i];
-      if (!all_left)
+      if (!all_left && !abandoned)
         fail_later("never-announced", "round %d, %u threads: after %zu generated steps and %d fair sweeps (3 steps per thread each) %s; %ld unit(s) pending", r, n,
                    generated, FAIR_SWEEPS, announced ? "termination was announced but not every thread observed it" : "termination was never announced", pending);
     }
@@ -221,6 +227,7 @@ void run(const Case& c) {
   label("threads0", (long)c[F_N0]);
   label("calls_with_unseen_work", (long)std::min<long>(total_window, 3));
   label("shrunk_thread_count", shrunk_threads);
+  label("abandoned_rounds", (long)abandoned_rounds);
   label("units", (long)(total_units < 10 ? total_units : total_units / 10 * 10));
   nontrivial(total_window >= 1 || (shrunk_threads && total_units > 0));
   vok();
